@@ -5,6 +5,7 @@ import CookModel.Lemmas.SerdeMods
 import CookModel.Lemmas.SerdeModsParsed
 import CookModel.Lemmas.SerdeEq
 import CookModel.Lemmas.FracInv
+import CookModel.Lemmas.NoNanParsed
 /-
   C15  Recipes survive serialization.
 
@@ -524,5 +525,87 @@ example : fracNum (α := Rat) ⟨.int, ['1'], 0⟩ ⟨.int, ['2'], 2⟩ = .ok (.
 example : newApprox (mkTable Rat Gen.DENOMS) (3334/10000 : Rat) (5/100) 4 10 = some (.fraction 0 1 3 (1/15000)) := by
   decide +kernel
 -- ===== end w6numeric =====
+
+-- ===== w7c15nan =====
+/-! ## "no NaN value" for every recipe `parse` returns (wave `w7c15nan`)
+
+  The sweep that wave 6 left open: the parser-level fact of `C15_parsed_no_nan_partial` (1) is carried through the
+  event stream (Lemmas/NoNanStream.lean: `parse_value` / the advanced-quantity reader are the only builders, the
+  component parsers copy the value into the event), through the collector (Lemmas/NoNanCollector.lean: invariant
+  `ColNumOK` of the fold; `valueOf` wraps the value in `Fixed` / `Linear`, references copy quantities,
+  `find_inline_quantity` builds `Regular(±literal)`) into every quantity of the recipe (Lemmas/NoNanParsed.lean).
+  IEEE facts: `IeeeHypC α` = the facts `IeeeHyp` of wave 6 + "the negation of a non-NaN value is not NaN" (theorems
+  over ℚ; over f64 facts about the platform, same status as `F64Hyp`).  NO finiteness premise is needed here: a literal
+  too large for f64 is read as +∞, which is `==` to itself. -/
+
+/-- the IEEE-754 facts used below are theorems over exact rationals -/
+theorem C15_ieee_hypotheses_full : IeeeHypC Rat := nnp_ieeeHypC_rat
+
+/-- **Every ingredient / cookware / timer event of the pull parser carries a quantity value that the numeric reader
+    built** (`Value.ParsedOK`: fractions with `den ≠ 0`, parts within `u32`, error 0; plain numbers not NaN), a
+    text, or the recovery value `1` — for every arithmetic instance satisfying the IEEE facts. -/
+theorem C15_parsed_events_no_nan {α} [Arith α] (H : IeeeHypC α) (cs : CharSpec) (ext : Ext) (input : Str) :
+    ∀ ev ∈ (pullEvents (α := α) cs ext input).1.toList, EvNumOK ev :=
+  haveI := H
+  nn_pullEvents_numOK cs ext input
+
+/-- **No number of a parsed recipe has a NaN value.**  For every arithmetic instance satisfying the IEEE facts (so
+    for f64), every environment and input: in the recipe `parse` returns, every quantity value of every ingredient,
+    cookware item, timer and inline quantity (a) is structurally sound — each `Number::Fraction` has `den ≠ 0`,
+    `whole`, `num`, `den` within `u32` and a non-NaN error, each plain number is not NaN — and (b) has a value that
+    is `==` to itself, i.e. `RecipeSelfEq`, the premise of `C15_eq_reflexive` / `C15_roundtrip_equal`. -/
+theorem C15_parsed_no_nan {α} [Arith α] (H : IeeeHypC α) (env : Env) (input : Str) (c : Col α)
+    (h : (parseRecipe (α := α) env input).output = some c) :
+    RecipeFracOK (fun v : ScalableValue α => v.val.ParsedOK) c.toRecipe ∧
+    RecipeSelfEq scalableSelfEq c.toRecipe :=
+  haveI := H
+  ⟨nnp_toRecipe_parsedOK c (nnc_parseRecipe_numOK env input c h), nnp_parsed_selfEq env input c h⟩
+
+/-- **`==` is reflexive on every parsed recipe** (f64 included): the recipe `parse` returns, packed with any metadata
+    on which the YAML library's equality is reflexive and any servings, is `==` to itself — `C15_eq_reflexive`
+    without the NaN premise. -/
+theorem C15_parsed_eq_reflexive {α} [Arith α] (H : IeeeHypC α) (meq : Metadata → Metadata → Bool)
+    (env : Env) (input : Str) (c : Col α) (h : (parseRecipe (α := α) env input).output = some c)
+    (m : Metadata) (sv : Servings) (hm : meq m m = true) :
+    eqScalableRecipe meq ⟨m, c.toRecipe, sv⟩ ⟨m, c.toRecipe, sv⟩ = true :=
+  C15_eq_reflexive meq ⟨m, c.toRecipe, sv⟩ hm (C15_parsed_no_nan H env input c h).2
+
+/-- **The property's sentence for parser output, with the code's `==`, for every arithmetic instance**: the recipe
+    `parse` returns, with finite numbers (the property's own premise) and JSON-representable metadata, serializes to
+    JSON that deserializes to a recipe `r'` with `r' == r` and `r == r'`.  Neither the modifier premise
+    (`C15_parsed_recipe_mods_known`) nor the NaN premise (`C15_parsed_no_nan`) of `C15_roundtrip_equal` remains;
+    what remains is trusted or the property's own: the codec round-trips finite values, the IEEE facts, finite
+    numbers, reflexivity of the YAML library's map equality on the metadata. -/
+theorem C15_roundtrip_parsed_equal {α} [Arith α] (H : IeeeHypC α) (c : NumCodec α) (hc : c.RoundTrips)
+    (meq : Metadata → Metadata → Bool) (env : Env) (input : Str) (col : Col α)
+    (h : (parseRecipe (α := α) env input).output = some col) (m : Metadata) (sv : Servings)
+    (hfin : RecipeFinite scalableFinite col.toRecipe) (hm : meq m m = true) :
+    ∃ r', decScalableRecipe c (encScalableRecipe c ⟨m, col.toRecipe, sv⟩) = some r' ∧
+      eqScalableRecipe meq r' ⟨m, col.toRecipe, sv⟩ = true ∧ eqScalableRecipe meq ⟨m, col.toRecipe, sv⟩ r' = true :=
+  C15_roundtrip_equal c hc meq ⟨m, col.toRecipe, sv⟩ hfin (C15_parsed_recipe_mods_known env input col h)
+    (C15_parsed_no_nan H env input col h).2 hm
+
+/-- **`default_scale` of a parsed recipe has no NaN value** (the values are copied out of `Fixed` / `Linear`).
+    PARTIAL with respect to "after scaling and conversion": `scale(factor)` multiplies linear values by the factor and
+    passes ingredient / timer quantities through `fit`, `convert` through `convert_impl` (best unit, `new_approx`);
+    "no NaN" for those needs finite inputs and the affine IEEE facts and is NOT proved here.  It is not a premise of
+    any `==` statement: `ScaledRecipe` has no `PartialEq` in the code, its round trip is stated on the JSON image
+    (`C15_roundtrip_parsed_scaled`). -/
+theorem C15_scaled_no_nan_partial {α} [Arith α] (H : IeeeHypC α) (env : Env) (input : Str) (c : Col α)
+    (h : (parseRecipe (α := α) env input).output = some c) :
+    RecipeSelfEq valueSelfEq (recipeDefaultScale c.toRecipe) :=
+  haveI := H
+  nnp_defaultScale_selfEq _ (nnp_parsed_selfEq env input c h)
+
+/-- the statements speak about something: `@x{1/2}` is accepted and stores the fraction `0 1/2` (error 0, `den ≠ 0`),
+    `@x{1/0}` is refused by the parser; an event carrying `0/0` does not satisfy the invariant -/
+example : ((parseRecipe (α := Rat) C15_exEnv ['@','x','{','1','/','2','}','\n']).output.map
+      (fun c => c.toRecipe.ingredients.map (·.quantity))) =
+      some [some ⟨.linear (.number (.fraction 0 1 2 0)), none⟩] ∧
+    (parseRecipe (α := Rat) C15_exEnv ['@','x','{','1','/','0','}','\n']).output.isNone = true := by decide +kernel
+example : ¬ EvNumOK (α := Rat) (.timer ⟨⟨none, some ⟨⟨⟨⟨.number (.fraction 0 0 0 0), ⟨0, 0⟩⟩, none⟩, none⟩, ⟨0, 0⟩⟩⟩, ⟨0, 0⟩⟩) := by
+  intro h
+  exact (h _ rfl).1.1 rfl
+-- ===== end w7c15nan =====
 
 end Cook
